@@ -121,3 +121,48 @@ Theorem C02_programs_no_lost_wakeup :
     In k (skipn (length (c_woken (p_s p1))) (c_woken (p_s p2))).
 Proof. intros V v ver clones subs pending progs sched1 sched2 k; apply prog_no_lost_wakeup. Qed.
 Print Assumptions C02_programs_no_lost_wakeup.
+
+(* ---------------- waker identity (ObsWaker.v) ----------------
+   A task may poll the same subscriber with different waker objects over time.  [wstep] runs
+   Obs.step and tracks, for every entry of the waker list, which waker object it is (the poll's). *)
+From EB Require Import ObsWaker.
+
+(* "wakes the waker supplied to that Pending poll": that very waker object is registered ... *)
+Theorem C02_waker_supplied_is_registered :
+  forall (V : Type) (veq heq : V -> V -> bool) (vdefault : V) (s : wobs (V:=V)) k wid s' w,
+    winv s -> wstep veq heq vdefault s (SPoll k) wid = Ok (s', OPollR Pending, w) ->
+    In (k, wid) (entries s') /\ w = [].
+Proof. intros V veq heq vdefault s k wid s' w; apply wpoll_pending_registers. Qed.
+Print Assumptions C02_waker_supplied_is_registered.
+
+(* ... stays registered through any further history (calls made with whatever wakers) until it is
+   woken - and what is woken then is this waker object *)
+Theorem C02_waker_supplied_is_woken :
+  forall (V : Type) (veq heq : V -> V -> bool) (vdefault : V) xs (s : wobs (V:=V)) e,
+    winv s -> In e (entries s) ->
+    In e (entries (fst (wrun veq heq vdefault s xs))) \/ In e (snd (wrun veq heq vdefault s xs)).
+Proof. intros V veq heq vdefault xs s e; apply wno_lost_wakeup. Qed.
+Print Assumptions C02_waker_supplied_is_woken.
+
+(* a call that changes the version wakes every registered waker object and leaves none *)
+Theorem C02_version_change_wakes_every_waker_object :
+  forall (V : Type) (veq heq : V -> V -> bool) (vdefault : V) (s : wobs (V:=V)) x wid s' r w,
+    winv s -> oinv (w_obs s) -> wstep veq heq vdefault s x wid = Ok (s', r, w) ->
+    ver (w_obs s') <> ver (w_obs s) -> w = entries s /\ entries s' = [].
+Proof. intros V veq heq vdefault s x wid s' r w; apply wversion_change_wakes_all. Qed.
+Print Assumptions C02_version_change_wakes_every_waker_object.
+
+(* the tracking is consistent (one identity per entry) and does not change what Obs.step does *)
+Theorem C02_waker_tracking_is_conservative :
+  forall (V : Type) (veq heq : V -> V -> bool) (vdefault : V) (s : wobs (V:=V)) x wid,
+    (forall s' r w, winv s -> wstep veq heq vdefault s x wid = Ok (s', r, w) -> winv s') /\
+    match wstep veq heq vdefault s x wid with
+    | Ok (s', r, w) => exists w0, step veq heq vdefault (w_obs s) x = Ok (w_obs s', r, w0) /\ length w <= length w0
+    | Panic => step veq heq vdefault (w_obs s) x = Panic
+    end.
+Proof.
+  intros V veq heq vdefault s x wid. split.
+  - intros s' r w. apply winv_step.
+  - apply wstep_erases.
+Qed.
+Print Assumptions C02_waker_tracking_is_conservative.
